@@ -271,7 +271,8 @@ pub(crate) fn split_in_extension<T>(
 where
     T: LabelType,
 {
-    let mut in_ext_bool = vec![false; n_args];
+    let n_ids = af.max_argument_id().map_or(0, |id| id + 1);
+    let mut in_ext_bool = vec![false; usize::max(n_args, n_ids)];
     current.iter().for_each(|a| {
         let id = a.id();
         if id >= in_ext_bool.len() {
